@@ -352,6 +352,7 @@ class Unit:
         # after the unit's own rewrites: a unit that has its own schema for an `enumerate()` loop has consumed it by now
         text, n = X.r7_enumerate(text); self._log("R7-enumerate", fnkey, n)
         text, n = X.r8_unwrap_or_else(text); self._log("R8-unwrap-or-else", fnkey, n)
+        text, n = X.r8_closure_wildcard(text); self._log("R8-closure-wildcard", fnkey, n)
         text, n = X.r8_closure(text, self.cfg.get("closure", []), fnkey); self._log("R8-closure-schema", fnkey, n)
         idents, pats = self._typemap()
         text, n = X.r4_typemap(text, idents, pats); self._log("R4-typemap", fnkey, n)
